@@ -285,7 +285,7 @@ Theorem C08_libc_satisfiable : LibcPrintSpec guarded_fmt_d guarded_fmt_g15 guard
 Proof. exact guarded_libc_spec. Qed.
 Print Assumptions C08_libc_satisfiable.
 
-(* ["aaa…a" (300 bytes), 1.5, -7] printed unformatted: 312 bytes of text, so the 256-byte default buffer
+(* ["aaa…a" (default buffer size + 44 bytes), 1.5, -7] printed unformatted: more text than the default buffer holds, whatever its size,
    must grow while the string is being printed.  Request 1 = initial buffer, 2 = growth, 3 = final shrink;
    refusing any one of them gives NULL with an empty ledger, in both allocator configurations *)
 Theorem C08_print_nonvacuous :
